@@ -122,7 +122,7 @@ void rm_rf(const std::string &d) {
 struct SinkSpec { int endmode = 0;   // how the sink's life ends: 0,1 disable(); 2 cleanup() of the still enabled file sink; 3 the enabled file sink is destroyed
   int kind = 0; int deflevel = 8; int modlevel[4] = {-1, -1, -1, -1}; int buf = 3, mn = 2, mx = 4, intv = 1, fmax = 4;
   std::vector<std::pair<int, int>> level_calls;   // (module, level) in call order; level -1 = unsetLevel(module); modlevel[] is the resulting model
-  int redefinitions = 0; };
+  int redefinitions = 0, global_resets = 0, deflevel0 = 8; };
 
 std::string run(const Scenario &s, CaseInfo &info) {
   // ---- decode
@@ -136,13 +136,16 @@ std::string run(const Scenario &s, CaseInfo &info) {
   for (auto &op : s.ops) {
     switch (op.code) {
       case CFG: maxlen = (size_t)kMaxLens[op.in(0, 0, 8)]; nthreads = (int)op.in(1, 1, kMaxThreads); break;
-      case SINK: if ((int)specs.size() < kMaxSinks) { SinkSpec sp; sp.kind = (int)op.in(0, 0, 4); sp.deflevel = (int)op.in(1, -1, 8);
+      case SINK: if ((int)specs.size() < kMaxSinks) { SinkSpec sp; sp.kind = (int)op.in(0, 0, 4); sp.deflevel = (int)op.in(1, -1, 8); sp.deflevel0 = sp.deflevel;
           sp.buf = (int)op.in(2, 0, 4); sp.mn = (int)op.in(3, 1, 3); sp.mx = sp.mn + (int)op.in(4, 0, 3); sp.intv = (int)op.in(5, 0, 2); sp.fmax = (int)op.in(6, 0, 4); sp.endmode = (int)op.in(7, 0, 3);
           bool has_stdout = false; for (auto &x : specs) if (x.kind >= 3) has_stdout = true;
           if (sp.kind >= 3 && has_stdout) sp.kind = 0;      // at most one sink may own fd 1
           specs.push_back(sp); } break;
       case MODLVL: if (!specs.empty()) {   // every op is a real setLevel()/unsetLevel() call, in order: a module may be re-configured several times
-          SinkSpec &sp = specs[op.in(0, 0, (int64_t)specs.size() - 1)]; int m = (int)op.in(1, 0, 3); int lv = (int)op.in(2, -1, 7);
+          SinkSpec &sp = specs[op.in(0, 0, (int64_t)specs.size() - 1)]; int m = (int)op.in(1, 0, 4); int lv = (int)op.in(2, -1, 7);
+          if (m == 4) {   // the GLOBAL threshold of the sink is set again, after module thresholds have been set: they must stay what they are
+            if (sp.level_calls.size() < 12) { sp.level_calls.push_back({4, lv}); sp.deflevel = lv; sp.global_resets++; }
+          } else
           if (sp.level_calls.size() < 12) { if (sp.modlevel[m] >= 0) sp.redefinitions++; sp.level_calls.push_back({m, lv}); sp.modlevel[m] = lv; } } break;
       case LOG: { int t = (int)op.in(0, 0, kMaxThreads - 1); Call c; c.t = t; c.seq = 0; c.level = (int)op.in(1, 0, 7); c.module = (int)op.in(2, 0, 3);
         size_t L; int64_t k = op.in(4, 0, 3000);
@@ -196,8 +199,8 @@ std::string run(const Scenario &s, CaseInfo &info) {
       int fd = open(stdout_path.c_str(), O_WRONLY | O_CREAT | O_TRUNC, 0644);
       saved_stdout = dup(1); dup2(fd, 1); close(fd);
     }
-    sk->setLevel(sp.deflevel);
-    for (auto &lc : sp.level_calls) { if (lc.second >= 0) sk->setLevel(kModules[lc.first], lc.second); else sk->unsetLevel(kModules[lc.first]); }
+    sk->setLevel(sp.deflevel0);   // the later global setLevel() calls are part of level_calls, in order
+    for (auto &lc : sp.level_calls) { if (lc.first == 4) sk->setLevel(lc.second); else if (lc.second >= 0) sk->setLevel(kModules[lc.first], lc.second); else sk->unsetLevel(kModules[lc.first]); }
     sk->enable();
     sinks.emplace_back(sk);
   }
@@ -342,6 +345,7 @@ std::string run(const Scenario &s, CaseInfo &info) {
   info.cls_if(saved_stdout >= 0, "in_tree_stdout_sink");
   { bool some_early = false, some_late = false; for (size_t i = 0; i < specs.size(); ++i) (early[i] ? some_early : some_late) = true; info.cls_if(cur_round == 1 && some_early && some_late, "sink_disabled_while_others_stay_enabled"); }
   { bool re = false; for (size_t i = 0; i < specs.size(); ++i) if (reenabled[i]) re = true; info.cls_if(re, "sink_object_enabled_again_after_disable"); }
+  { bool gr = false; for (auto &sp : specs) if (sp.global_resets) gr = true; info.cls_if(gr, "global_level_set_again_after_module_levels"); }
   { bool redef = false; for (auto &sp : specs) if (sp.redefinitions) redef = true; info.cls_if(redef, "module_level_reconfigured"); }
   info.nontrivial = (nthreads >= 2 && has_async && cross_boundary) || any_trunc || any_roll;
   return "";
@@ -362,7 +366,7 @@ SubDef def = [] {
     auto opg = rc::gen::weightedOneOf<Op>({
       {12, mkop(LOG, {th, range(0, 7), range(0, 3), range(0, 9), range(0, 3000), rc::gen::weightedOneOf<int64_t>({{3, range(0, 1)}, {1, range(2, 3)}}), rc::gen::weightedOneOf<int64_t>({{3, range(0, 3)}, {2, range(4, 15)}})})},
       {2, mkop(YIELD, {th, rc::gen::weightedOneOf<int64_t>({{3, range(0, 49)}, {1, range(50, 500)}})})},
-      {2, mkop(MODLVL, {range(0, 2), range(0, 3), range(-1, 7)})},
+      {2, mkop(MODLVL, {range(0, 2), range(0, 4), range(-1, 7)})},
       {1, mkop(SPLIT, {range(0, 7), range(0, 1), range(0, 7)})},
     });
     return rc::gen::apply([](std::vector<Op> h, std::vector<Op> p, std::vector<Op> b) {
